@@ -2,6 +2,7 @@ import Sebuf.Serve
 import Sebuf.Decode
 import Sebuf.ClientResp
 import Sebuf.Lemmas.Decode
+import Sebuf.Lemmas.DecodeToy
 /-!
 # C11 — malformed traffic is rejected cleanly and never crashes server or client
 
@@ -311,6 +312,18 @@ theorem decoder_sound_partial (pj : PJ) (ok : pj.OK) (k : Str) (t : Tpl) (j : Js
     | arr _ => simpa [goStr, Spec.memberMeaning, Spec.reading] using h
     | obj _ => simpa [goStr, Spec.memberMeaning, Spec.reading] using h
 
+/-- non-vacuity of every theorem below that assumes the leaf contract `PJ.OK`: the contract has a
+model (`Lemmas/DecodeToy.lean`: decimal strings, `secs nanos` timestamp text, Go's standard
+base64), on which an in-range unix-seconds member is accepted with its documented meaning. -/
+example : toyPJ.OK ∧ swallowSafe .tsSecs (.num (.int 1705312200)) = true ∧
+    Impl.memberOutcome toyPJ "tSecs".toList .tsSecs (.num (.int 1705312200)) = some (.ts 1705312200 0) :=
+  ⟨toyPJ_ok, by decide, by
+    have h := toyPJ_ok.ts_rfc 1705312200 0 (by decide)
+    have hr : tsInRange 1705312200 = true := by decide
+    have hg : goInt false (.num (.int 1705312200)) = some 1705312200 := by decide
+    simp only [hr, if_true] at h
+    simp [Impl.memberOutcome, Impl.editMember, hg, pjRead, h]⟩
+
 /-- a leaf instance for closed witnesses: bytes are read by the transcription of protojson's
 `unmarshalBytes`; the other leaves are not consulted by the witnesses that use it. -/
 def pjBytesOnly : PJ :=
@@ -394,7 +407,7 @@ theorem ts_null_becomes_epoch (pj : PJ) (ok : pj.OK) (k : Str) :
     simp [Impl.memberOutcome, Impl.editMember, goInt, pjRead, e1, h0]
   · simp [Spec.memberMeaning, Spec.reading, pjRead, ok.ts_null]
 
-/-- **¬ DecoderSound, repeated int64 NUMBER** (finding `dispatched_undecodable:null_list_element_read_as_zero`):
+/-- **¬ DecoderSound, repeated int64 NUMBER** (finding `dispatched_undecodable:null_element_read_as_zero`):
 `{"bigs":[1,null]}` — protojson refuses `null` as a list element, but `json.Unmarshal` into
 `[]int64` leaves a 0 there and the edit rewrites the member to `["1","0"]`: the handler sees [1, 0]. -/
 theorem int64_list_null_element_becomes_zero (pj : PJ) (ok : pj.OK) (k : Str) :
